@@ -214,7 +214,7 @@ def render_fault(inst, L):
     for _ in range(inst.n):
         a("    collect();")
     a("    check_safety(%d, %s, !c);" % (inst.n, arr(inst.reach(held))))
-    a('    kani::cover!(c, "l2::fault_fired_and_was_caught");')
+    a('    kani::cover!(c, "info::fault_fired_and_was_caught");')
     a('    kani::cover!(true, "l2::end_of_scenario_reached");')
     a("    finish();")
     a("}")
